@@ -244,6 +244,17 @@ pub fn explicit_builtin_scalars() -> Vec<Program> {
     vec![prog_on(schema.clone(), doc.clone(), |_| {}), prog_on(schema, doc, |o| { o.normalization_rust = true; })]
 }
 
+/// Nullable lists (`tags: [[String!]]`, `ids: [ID]`, `friends: [Animal]`) in a response that is also serialised,
+/// with skip_serializing_none on: the only response members that carry skip-when-None.
+pub fn skipped_nullable_lists() -> Vec<Program> {
+    let fld = Sel::field;
+    let doc = vec![op("SkipLists", vec![Sel::obj("me", vec![fld("name"), fld("tags"), fld("ids"), fld("codes"), Sel::obj("parent", vec![fld("tags"), fld("ids")])]), fld("count")])];
+    vec![prog_on(zoo(), doc, |o| {
+        o.skip_serializing_none = true;
+        o.response_derives = Some("Debug, Serialize".into());
+    })]
+}
+
 /// Known finding K15: GraphQL TYPE names that are Rust keywords (legal GraphQL: `enum type`, `input match`)
 /// are emitted as items of that name.
 pub fn keyword_type_names() -> Vec<Program> {
